@@ -75,6 +75,9 @@ func oracle(c qcase.Case) (evid.Info, error) {
 			info.Skip = "translate-panic(C05)"
 		} else {
 			info.Skip = "translate-rejected"
+			if os.Getenv("VERIF_TRIAGE") != "" {
+				info.Skip += ": " + qcase.Short(err.Error())
+			}
 		}
 		return info, nil
 	}
@@ -95,6 +98,9 @@ func oracle(c qcase.Case) (evid.Info, error) {
 			info.Skip = "refcypher-unsupported: " + qcase.Short(u.Reason)
 		} else {
 			info.Skip = "reference-runtime-error"
+			if os.Getenv("VERIF_TRIAGE") != "" {
+				info.Skip += ": " + qcase.Short(err.Error()) + " | " + c.Query
+			}
 		}
 		return info, nil
 	}
